@@ -14,7 +14,7 @@ use std::collections::HashMap;
 pub static MONITOR: Monitor = Monitor {
     id: "C14",
     title: "Every id with visible content yields one fragment marker at its content",
-    rule: "Grammar documents with unique ids on random elements (p, div, span, em, strong, code, a[name], a[href], li, ul, ol, blockquote, h1-6, pre, td, th, tr, table, dl/dt/dd, img) and words concentrated around the width so that first words are hard-wrapped; widths 1..=100; lines from config::rich() and config::plain(). The output is linearised into a stream of token characters and FragmentStart markers. Oracle: (1) the multiset of marker names restricted to ids of elements with visible text equals the set of those ids (each exactly once); (2) for table-free documents and raw mode, the number of token characters before a marker equals the index of its element's first visible character in the oracle DOM's visible stream (after everything that precedes the element, not later than its first character); (3) string output is identical with all id/name attributes removed from the source. Hand-written regression inputs run as the first cases. Distinct/non-trivial = distinct (document,width) outputs with at least 2 markers.",
+    rule: "Grammar documents with unique ids on random elements (p, div, span, em, strong, code, a[name], a[href], li, ul, ol, blockquote, h1-6, pre, td, th, tr, table, dl/dt/dd, img) and words concentrated around the width so that first words are hard-wrapped; widths 1..=100; lines from config::rich() and config::plain(). The output is linearised into a stream of token characters and FragmentStart markers. Oracle: (1) the multiset of marker names restricted to ids of elements with visible text equals the set of those ids (each exactly once); (2) for table-free documents and raw mode, the number of token characters before a marker equals the index of its element's first visible character in the oracle DOM's visible stream (after everything that precedes the element, not later than its first character); (3) markers with no text between them (in documents with side-by-side tables: directly adjacent on a line, i.e. within one cell) come in the document order of their elements, including the markers of text-less id'd elements; (4) string output is identical with all id/name attributes removed from the source. Hand-written regression inputs run as the first cases. Distinct/non-trivial = distinct (document,width) outputs with at least 2 markers.",
     assumptions: &[
         "with side-by-side tables only presence/uniqueness of markers is judged (cells interleave), positions are judged in raw mode and table-free documents",
         "markers of elements without visible text are allowed but not required",
@@ -48,6 +48,7 @@ fn thresholds(_t: Tier) -> Vec<(&'static str, u64)> {
         ("cases", 1000),
         ("markers_expected", 10_000),
         ("marker_positions_checked", 5000),
+        ("adjacent_marker_pairs_checked", 500),
         ("strip_id_comparisons", 2000),
         ("hook:hard_wraps", 1000),
         ("docs_with_tables", 500),
@@ -158,6 +159,14 @@ fn table_part_with_empty_first_cell(dom: &ODom, id: odom::Id) -> bool {
     while let Some(x) = stack.pop() {
         if let Some(n) = dom.html_name(x) {
             if n == "td" || n == "th" {
+                // a spanning first cell over columns that hold no text of their own can be
+                // given width 0 (the unsized-column defect recorded under C03/C05/C06) and
+                // is then skipped like an empty one
+                if dom.attr(x, "colspan").and_then(|v| v.trim().parse::<usize>().ok()).unwrap_or(1) >= 2
+                    && super::c03::spanned_columns_have_no_own_text(dom, x)
+                {
+                    return true;
+                }
                 // visible text?
                 let mut s2 = vec![x];
                 while let Some(y) = s2.pop() {
@@ -202,6 +211,68 @@ pub fn check_markers(
             match p {
                 Piece::Str { s, .. } => nchars += s.chars().filter(|c| in_t(*c)).count(),
                 Piece::Frag(n) => chars_before.entry(n.clone()).or_default().push(nchars),
+            }
+        }
+    }
+    // document order of every element that carries a marker name (with or without text)
+    let mut doc_pos: HashMap<String, Option<usize>> = HashMap::new();
+    {
+        let mut k = 0usize;
+        let mut stack = vec![0usize];
+        while let Some(x) = stack.pop() {
+            if let Kind::Element { name, html: true, attrs, .. } = dom.kind(x) {
+                if let Some((_, v)) = attrs.iter().find(|(a, _)| a == "id" || (name == "a" && a == "name")) {
+                    k += 1;
+                    // a name used twice has no single position
+                    doc_pos.entry(v.clone()).and_modify(|e| *e = None).or_insert(Some(k));
+                }
+            }
+            for &c in dom.children(x).iter().rev() {
+                stack.push(c);
+            }
+        }
+    }
+    // markers with no text between them (inside one table cell: no piece at all between
+    // them on the line) must come in document order
+    {
+        let mut prev: Option<(usize, String, usize)> = None; // (doc position, name, chars before)
+        let mut nch = 0usize;
+        for l in lines {
+            if !sequential {
+                prev = None;
+            }
+            for p in l {
+                match p {
+                    Piece::Str { s, .. } => {
+                        nch += s.chars().filter(|c| in_t(*c)).count();
+                        if !sequential {
+                            prev = None;
+                        }
+                    }
+                    Piece::Frag(n) => {
+                        if let Some(Some(pos)) = doc_pos.get(n) {
+                            if let Some((ppos, pname, pch)) = &prev {
+                                if *pch == nch {
+                                    out.inc("adjacent_marker_pairs_checked");
+                                    if ppos > pos {
+                                        out.violate(
+                                            "marker-order",
+                                            format!(
+                                                "FragmentStart({:?}) comes before FragmentStart({:?}) with no text between them, but their elements are in the opposite order in the document",
+                                                pname, n
+                                            ),
+                                            witness(input, w, cfg, json!({"lines": lines.iter().take(16).map(|l| format!("{:?}", l)).collect::<Vec<_>>()})),
+                                        );
+                                        return false;
+                                    }
+                                }
+                            }
+                            prev = Some((*pos, n.clone(), nch));
+                        } else {
+                            prev = None;
+                        }
+                    }
+                }
             }
         }
     }
@@ -410,4 +481,8 @@ fn run_case(seed: u64, idx: u64, _tier: Tier, out: &mut CaseOut) {
             return;
         }
     }
+}
+
+pub fn judge_doc(out: &mut CaseOut, input: &[u8], cfg: &Cfg, w: usize) {
+    judge(out, input, None, cfg, w);
 }
